@@ -127,6 +127,8 @@ package rr
 //@   loop 5 step [C10.gr4j-runoff-nonneg] runoff.at(day) >= 0
 //@   loop 5 step instantiate C10.lemma-asum-shift-add(pre(seq(q9State)), q9State, UH1, Pr*0.9, n1 - 1)
 //@   loop 5 step instantiate C10.lemma-asum-shift-add(pre(seq(q1State)), q1State, UH2, Pr*0.1, n2 - 1)
+//@   loop 5 step [C10.gr4j-uh1-buffer-sum] implies(asum(UH1, n1) == 1, asum(q9State, n1) + Q9 == pre(asum(q9State, n1)) + Pr*0.9)
+//@   loop 5 step [C10.gr4j-uh2-buffer-sum] implies(asum(UH2, n2) == 1, asum(q1State, n2) + Q1 == pre(asum(q1State, n2)) + Pr*0.1)
 //@   loop 5 step [C10.gr4j-closure] implies(asum(UH1, n1) == 1 && asum(UH2, n2) == 1 && x2 == 0 && pet.at(day) == 0 && Q1 >= 0 && Q9 >= 0, rainfall.at(day) == runoff.at(day) + (post(S) - pre(S)) + (post(R) - pre(R)) + (asum(q9State, n1) - pre(asum(q9State, n1))) + (asum(q1State, n2) - pre(asum(q1State, n2))))
 //@   loop 6 invariant 0 <= i && i <= n1
 //@   loop 6 invariant forall(k, 0, i, q9State[k] == pre(q9State[k]) + (Pr*0.9*UH1[k])) && forall(k, i, n1, q9State[k] == pre(q9State[k]))
